@@ -125,18 +125,25 @@ def attr_step(op, version, name, kind, expect_success=False):
     v2 = version >= (2, 0)
 
     def h(index: int, has_index: bool, nlist: int, text: str, flag: bool, form2: int, cur_sel: int,
-          sens: bool) -> bool:
+          sens: bool, empty_mask: bool) -> bool:
         """
         post: _
         """
         if not (-2 <= index <= 3 and 0 <= nlist <= 3 and len(text) <= 2 and 0 <= form2 <= 1 and 0 <= cur_sel <= 3):
             return True
+        if empty_mask and name in LISTS:
+            return True              # the falsy-current-value pre-state matters for single-valued attributes
         if v2 and (has_index or index):
             return True
         if not v2 and (form2 or cur_sel):
             return True
         o = mk_rich(kind, nlist, nlist, nlist, state=ST.PRE_ACTIVE)
         o.sensitive = sens
+        if empty_mask and hasattr(o, "cryptographic_usage_masks"):
+            # a stored object whose usage mask is empty (e.g. registered without one): the overwrite
+            # rule of the single-valued setter only refuses when the *current* value is truthy
+            with NoTracing():
+                o.cryptographic_usage_masks = []
         other = mk_obj("SecretData", uid=2, owner="alice", names=["other"])
         e, s = mk_engine([o, other], identity=("alice", None), version=version)
         before = snapshot(o)
@@ -202,6 +209,55 @@ def attr_step(op, version, name, kind, expect_success=False):
     return h
 
 
+def shared_rows(attr, version):
+    """Three-step history: two objects are created carrying (possibly equal) values of a multi-valued
+    attribute, then the first is modified.  The second must not change (no row is shared between
+    objects), whatever the texts are."""
+    version = tuple(version)
+    v2 = version >= (2, 0)
+
+    def h(t1: str, t2: str, t3: str, use_register: bool) -> bool:
+        """
+        post: _
+        """
+        if len(t1) > 1 or len(t2) > 1 or len(t3) > 1:
+            return True
+        A = enums.AttributeType
+        e, s = mk_engine([], identity=("alice", None), version=version, crypto=P.RecordingCrypto())
+
+        def extra(text):
+            if attr == "Object Group":
+                return [P.AF.create_attribute(A.OBJECT_GROUP, text)]
+            if attr == "Name":
+                return [P.name_attr(text, 0)]
+            return [P.AF.create_attribute(A.APPLICATION_SPECIFIC_INFORMATION,
+                                          {"application_namespace": "ns", "application_data": text})]
+        for text in (t1, t2):
+            if use_register:
+                pl = P.mk("REGISTER", template=P.sym_template(alg=None, length=None,
+                                                              mask=[enums.CryptographicUsageMask.ENCRYPT], extra=extra(text)))
+                e._process_operation(OP.REGISTER, pl)
+            else:
+                pl = P.mk("CREATE", template=P.sym_template(mask=[enums.CryptographicUsageMask.ENCRYPT], extra=extra(text)))
+                e._process_operation(OP.CREATE, pl)
+        if len(s.objs) != 2:
+            return False
+        o1, o2 = s.objs
+        b2 = snapshot(o2)
+        val = attr_value(attr, t3, False)
+        if v2:
+            cur = attr_value(attr, t1, False)
+            payload = P.mk("MODIFY_ATTRIBUTE", str(o1.unique_identifier), version=version, current=cur, new=val)
+        else:
+            a = cobjects.Attribute(attribute_name=cobjects.Attribute.AttributeName(attr),
+                                   attribute_index=cobjects.Attribute.AttributeIndex(0), attribute_value=val)
+            payload = P.mk("MODIFY_ATTRIBUTE", str(o1.unique_identifier), version=version, attribute=a)
+        e._process_operation(OP.MODIFY_ATTRIBUTE, payload)
+        reach()
+        return snapshot(o2) == b2
+    return h
+
+
 IMPLEMENTED = ["Name", "Object Group", "Application Specific Information", "Sensitive"]
 
 
@@ -231,4 +287,11 @@ def conditions(tier):
                                            "in [-2,3] or absent, new text len<=2, flag, current-attribute selector, "
                                            "request form, stored sensitive flag - symbolic" % (op, v[0], v[1], name, k),
                                     timeout=600, part="attribute"))
+    for attr in ("Object Group", "Application Specific Information", "Name"):
+        for v in ((1, 4), (2, 0)):
+            out.append(Cond("shared-rows-%s-%d.%d" % (attr.replace(" ", ""), v[0], v[1]), "shared_rows",
+                            dict(attr=attr, version=list(v)),
+                            bounds="Create or Register two objects carrying '%s' texts t1, t2 (len<=1, possibly equal), "
+                                   "then ModifyAttribute (KMIP %d.%d form) of the first to t3; the second must not change"
+                                   % (attr, v[0], v[1]), timeout=600, part="history"))
     return out
